@@ -2207,7 +2207,10 @@ impl<'a, W: Write + 'a> Serializer<'a, W> {
                     compressed_writer.flush()?;
                     // Write the end of the compressed stream here. If left to the Drop of
                     // BzEncoder, a failure to write it would go unnoticed.
-                    compressed_writer.try_finish()?;
+                    let finished = compressed_writer.finish()?;
+                    // The end of the stream was written after the flush above: hand it on too,
+                    // the caller's writer may be buffering (save_file_compressed uses a BufWriter).
+                    finished.writer.flush()?;
                     return Ok(());
                 }
                 #[cfg(not(feature = "bzip2"))]
